@@ -544,3 +544,59 @@ def build_T14v(tree):
 
 
 TARGETS['T14v'] = {'file': 'sr/value_types.py', 'build': build_T14v}
+
+
+# ======================================================================================================
+# T14s: the STATE of a ContentSequence object and how it is handed out: every attribute any method assigns on
+# `self`, the flag properties, the base classes and class-level assignments (a hook such as `__copy__ = …` need not be
+# a `def`).  Model/SRContentSeq.lean's `Seq` has the list of the base class plus exactly these attributes, and
+# Model/SRSeqPool.lean's reading of copy / deepcopy / pickle relies on there being no further state and no hooks
+# (theorem object_state_pinned).
+# ======================================================================================================
+
+def build_T14s(tree):
+    cnode = find_func(tree, 'ContentSequence')
+    if not isinstance(cnode, ast.ClassDef):
+        raise Unsupported('class ContentSequence not found')
+    shas = [span_sha([cnode])]
+    attrs = set()
+    for n in ast.walk(cnode):
+        targets = []
+        if isinstance(n, ast.Assign):
+            targets = n.targets
+        elif isinstance(n, (ast.AnnAssign, ast.AugAssign)):
+            targets = [n.target]
+        elif isinstance(n, ast.Call) and _norm(n.func) in ('setattr', 'object.__setattr__') and n.args and _norm(n.args[0]) == 'self':
+            raise Unsupported('ContentSequence sets an attribute through setattr(self, …): ' + ast.unparse(n)[:80])
+        for t in targets:
+            for leaf in ast.walk(t):
+                if isinstance(leaf, ast.Attribute) and isinstance(leaf.value, ast.Name) and leaf.value.id == 'self' \
+                        and isinstance(leaf.ctx, ast.Store):
+                    attrs.add(leaf.attr)
+        if isinstance(n, ast.Attribute) and _norm(n) == 'self.__dict__':
+            raise Unsupported('ContentSequence touches self.__dict__ directly')
+    props = []
+    for fn in [n for n in cnode.body if isinstance(n, ast.FunctionDef)]:
+        if any(_norm(d) == 'property' for d in fn.decorator_list):
+            body = strip_doc(fn.body)
+            if len(body) != 1 or not isinstance(body[0], ast.Return) or not _re.fullmatch(r'self\.\w+', _norm(body[0].value)):
+                raise Unsupported(f'property {fn.name} is no longer `return self.<attribute>`')
+            props.append((fn.name, _norm(body[0].value)[5:]))
+    class_attrs = sorted({leaf.id for n in cnode.body if isinstance(n, (ast.Assign, ast.AnnAssign))
+                          for t in (n.targets if isinstance(n, ast.Assign) else [n.target])
+                          for leaf in ast.walk(t) if isinstance(leaf, ast.Name)})
+    nested = sorted(n.name for n in cnode.body if isinstance(n, (ast.ClassDef, ast.AsyncFunctionDef)))
+    out = [
+        lean_table('csInstanceAttrs', 'List String', [f'"{a}"' for a in sorted(attrs)],
+                   doc='every attribute a method of ContentSequence assigns on `self` (the list itself lives in the pydicom base class)'),
+        lean_table('csFlagProps', 'List (String × String)', [f'("{a}", "{b}")' for a, b in sorted(props)],
+                   doc='the properties of ContentSequence and the attribute each returns'),
+        lean_table('csBases', 'List String', [f'"{_norm(b)}"' for b in cnode.bases],
+                   doc='base classes of ContentSequence as written'),
+        lean_table('csClassLevelNames', 'List String', [f'"{a}"' for a in class_attrs + nested],
+                   doc='names bound in the class body other than by `def` (a hook assigned as an attribute, a nested class)'),
+    ]
+    return '\n\n'.join(out), hashlib.sha256(''.join(shas).encode()).hexdigest()
+
+
+TARGETS['T14s'] = {'file': 'sr/value_types.py', 'build': build_T14s}
